@@ -155,6 +155,45 @@ def agree(case, impl, model):
         else:
             want = float(max(abs(x) for x in e1))
         return abs(r[1][0] - want) <= 1e-9 * max(1.0, abs(want))
+    if head == "norm_ax":
+        # vector norms along an axis, any numeric element type: one value per lane, converted to the element type
+        ty = t[0].partition("@")[2]
+        s1, e1 = parse_a(t[1])
+        o, ax = t[2], int(t[3][1:])
+        import itertools as it
+        n = len(s1); ax %= n
+        rest = [d for k, d in enumerate(s1) if k != ax]
+        strides = [1] * n
+        for k in range(n - 2, -1, -1):
+            strides[k] = strides[k + 1] * s1[k + 1]
+        want = []
+        for c in it.product(*[range(d) for d in rest]):
+            full = list(c[:ax]) + [0] + list(c[ax:])
+            lane = []
+            for i in range(s1[ax]):
+                full[ax] = i
+                lane.append(e1[sum(a * b for a, b in zip(full, strides))])
+            if o in ("n", "z2"):
+                v = math.sqrt(sum(x * x for x in lane))
+            elif o == "z1":
+                v = float(sum(abs(x) for x in lane))
+            else:
+                v = float(max(abs(x) for x in lane))
+            want.append(v)
+        pa = vlib.parse_arr(impl)
+        if pa is None or len(pa[1]) != len(want):
+            return False
+        if ty.startswith("i"):
+            for g, v in zip(pa[1], want):
+                ok = {int(v)} | ({round(v), round(v) - 1} if abs(v - round(v)) < 1e-9 else set())
+                if int(g) not in ok:
+                    return False
+            return True
+        r = fl(impl.replace("arr(", "f(")) if False else None
+        vals = []
+        for g in pa[1]:
+            vals.append(float(int(g)) if re.match(r"^-?\d+$", g) else struct.unpack(">d" if len(g) == 17 else ">f", bytes.fromhex(g[1:]))[0])
+        return all(abs(g - v) <= (1e-9 if ty == "f64" else 1e-5) * max(1.0, abs(v)) for g, v in zip(vals, want))
     if head == "detlaw":
         return True
     return None
@@ -267,6 +306,14 @@ def gen(seed, tier):
         for name in ("inf", "Inf", "INF", "-inf", "1", "2"):
             out.append(f"norm {arr([n], v)} s{name.encode().hex()}")
     out.append(f"norm a2x2:1,2,3,4 n")
+    # vector norms along an axis for every numeric element type (seeded change C15n: the two-norm of integer lanes)
+    # (not i8: the sum of squares of a lane leaves the type before the root is taken — the library overflows there)
+    for ty in ("i16", "i32", "i64", "f32", "f64"):
+        for sh in ([2], [3], [2, 3], [3, 3], [2, 2, 3]):
+            for ax in range(-len(sh), len(sh)):
+                vals = [rng.choice([3, -4, 0, 12, 5, -8, 6, 2, -1, 7]) for _ in range(prod(sh))]
+                for o in ("n", "z1", "z2", "z99"):
+                    out.append(f"norm_ax@{ty} {arr(sh, vals)} {o} z{ax}")
     # the default norm (root of the sum of squares) of matrices, stacks of matrices and higher ranks
     for sh in ([2, 2], [3, 3], [2, 3], [4, 1], [1, 4], [2, 2, 2], [3, 4, 4], [2, 3, 3], [1, 1, 1], [2, 3, 3, 3], [2, 1, 2, 2], [5, 2, 2]):
         for _ in range(2):
